@@ -33,8 +33,8 @@ ASSUMPTIONS = [
 
 # call edges that cannot raise although the callee can in general: (caller qualified name, callee qualified name) -> reason
 NOTHROW_EDGES = {
-    ("operator<<", "operator-"): "operator<<(ostream&, mpz_class) negates only when value < 0, i.e. a signed value; "
-                                 "the int_error branch of unary minus is reached only for unsigned values > 2^63",
+    # (the former row for operator<<(ostream&, mpz_class) -> unary minus is now decided structurally: a unary minus applied to an
+    # mpz_class variable inside the true arm of `X < 0` cannot reach the overflow branch, which needs an unsigned value)
 }
 
 
@@ -98,6 +98,19 @@ class MayThrow:
         """escape sites in a function/lambda body: throws and calls not protected by a catch-all"""
         out = []
 
+        def neg_test(c):
+            """id of X when the condition is `X < 0` on an mpz_class X (its true arm only runs for signed negative values)"""
+            from zw import unwrap
+            c = unwrap(c)
+            if isinstance(c, dict) and c.get("k") == "call" and c.get("fn") == "operator<" and len(c.get("a", [])) == 2:
+                x, z = unwrap(c["a"][0]), unwrap(c["a"][1])
+                while isinstance(z, dict) and z.get("k") == "ctor" and len(z.get("a", [])) == 1:
+                    z = unwrap(z["a"][0])
+                if isinstance(x, dict) and x.get("k") == "ref" and "mpz_class" in x.get("t", "") and isinstance(z, dict) and z.get("k") == "int" and z.get("v") == 0:
+                    return x.get("id")
+            return None
+        negative = set()
+
         def rec(n, guarded):
             if isinstance(n, list):
                 for x in n:
@@ -108,6 +121,25 @@ class MayThrow:
             k = n.get("k")
             if k == "lambda":
                 return     # the body runs when the closure is called
+            if k in ("cond", "if") and neg_test(n.get("c")) is not None:
+                vid = neg_test(n["c"])
+                rec(n["c"], guarded)
+                fresh = vid not in negative
+                negative.add(vid)
+                rec(n.get("a") if k == "cond" else n.get("then"), guarded)
+                if fresh:
+                    negative.discard(vid)
+                rec(n.get("b") if k == "cond" else n.get("else"), guarded)
+                return
+            if k == "call" and n.get("fn") == "operator-" and len(n.get("a", [])) == 1 and not n.get("ismethod"):
+                from zw import unwrap
+                x = unwrap(n["a"][0])
+                while isinstance(x, dict) and x.get("k") == "ctor" and len(x.get("a", [])) == 1:
+                    x = unwrap(x["a"][0])
+                if isinstance(x, dict) and x.get("k") == "ref" and x.get("id") in negative:
+                    # unary minus of a value just tested negative: the overflow branch of operator-(mpz_class) needs an unsigned value
+                    rec(n["a"], guarded)
+                    return
             if k == "try":
                 catch_all = any(h["t"] == "..." for h in n["handlers"])
                 rec(n["body"], guarded or catch_all)
